@@ -39,7 +39,7 @@ PROPERTY = "C26"
 LEVEL = "model_checking"
 BOUNDS = {
     "quick": {"literal values": "unsuffixed: 0..2**63-1, u-suffixed: 0..2**64-1 (symbolic); literals inside a shift count: "
-                                f"0..{SHIFT_COUNT_MAX}",
+                                f"0..{SHIFT_COUNT_MAX}; literals inside the right factor of a product: 0..65535",
               "expression shapes": "depth 1 exhaustive (18 binary operators, unary - ~ ! +, ?:) over leaves L, Lu, (-L), (-Lu), each "
                                    "observed through its truth value and through == / < against a further symbolic literal (depth 2)",
               "directives": "#if and #elif"},
@@ -65,6 +65,7 @@ RULE = ("one evaluation = one batch job of #if templates; every template is one 
         "for all literal values); non-trivial = templates whose exploration had more than one path")
 
 DM = csem.PP
+MUL_RIGHT_MAX = 0xFFFF      # literals inside the right factor of a product (64 x 64-bit symbolic products are out of the solvers' reach)
 
 
 def pp_text(directive, etext):
@@ -90,6 +91,7 @@ class PPIfHarness(Harness):
         self.params = dict(directive=directive, expr=expr)
         self.W = W or (80 + 64 * self.text.count("*") + (SHIFT_COUNT_MAX + 1) * self.text.count("<<"))
         self.shiftlits = csem.shift_count_literals(expr)
+        self.mullits = csem.mul_right_literals(expr)
 
     def inputs(self, mk):
         vals = {}
@@ -97,6 +99,8 @@ class PPIfHarness(Harness):
             hi = DM.hi(csem.SUFFIX_TYPE[s])
             if i in self.shiftlits:
                 hi = min(hi, SHIFT_COUNT_MAX)
+            if i in self.mullits:
+                hi = min(hi, MUL_RIGHT_MAX)
             vals[i] = mk.int(f"L{i}", 0, hi)
         lv = [vals[i] for i in sorted(vals)]
         E = csem.Eval(DM, lv)
